@@ -240,7 +240,7 @@ def handleFile (ts : List String) : String :=
       | some (ops, "T" :: ts) =>
         match pTable ts with
         | some (t, "AMB" :: amb :: "SOPC" :: sc :: "SOPI" :: si :: "DS" :: ds :: "WA" :: wa :: "WF" :: wf :: rs) =>
-          match pOptTok sc, pOptTok si, unhex ds, unhex wa, pReads 4 rs with
+          match pOptTok sc, pOptTok si, unhex ds, unhex wa, pReads 6 rs with
           | some sc, some si, some dsb, some wab, some (reads, []) =>
             -- the table the file is written from
             let ambGen := amb == "1"
@@ -271,7 +271,7 @@ def handleFile (ts : List String) : String :=
                 | none => true
               let firstT := (reads.head?.bind (·.res)).map (·.1)
               let disagree := reads.any fun r => (r.res.map (·.1)) ≠ firstT
-              if reads.length ≠ 4 then "BAD-LINE" else
+              if reads.length ≠ 6 then "BAD-LINE" else
               if !bad.isEmpty ∨ disagree then
                 let keys := " ".intercalate (bad.map (·.key))
                 if ambiguous ∧ bad.all (fun r => r.key.startsWith "n") ∧ !bad.isEmpty then
